@@ -20,9 +20,10 @@ Lemma valid_abab : valid_utf8 (nm "abab").
 Proof. exists [97%N; 98%N; 97%N; 98%N]. split; [repeat constructor; left; reflexivity|reflexivity]. Qed.
 Lemma lister_G_valid : valid_grammar lister_G.
 Proof.
-  split; intros r [<-|[]]; cbn.
-  - repeat constructor; auto using valid_a, valid_b.
-  - reflexivity.
+  split; [|split].
+  - intros r [<-|[]]; cbn. repeat constructor; auto using valid_a, valid_b.
+  - intros r [<-|[]]; reflexivity.
+  - repeat constructor. intros [].
 Qed.
 
 Theorem C05_lister_refuted : ~ (forall extras G, valid_grammar G -> pass_preserves extras 5 G).
@@ -63,7 +64,7 @@ Theorem C05_passes : forall extras G, valid_grammar G ->
   pass_preserves extras 0 G /\ pass_preserves extras 1 G /\ pass_preserves extras 2 G /\ pass_preserves extras 3 G /\
   pass_preserves extras 4 G /\ (lister_applies G = false -> pass_preserves extras 5 G).
 Proof.
-  intros extras G V. pose proof V as [VL VN]. split; [|split; [|split; [|split; [|split]]]].
+  intros extras G V. pose proof V as (VL & VN & VU). split; [|split; [|split; [|split; [|split]]]].
   - apply rotate_preserves.
   - now apply skip_preserves.
   - apply unroll_preserves.
@@ -77,6 +78,24 @@ Qed.
    the five passes before it). *)
 Theorem C05_pipeline_outside_lister_class : forall extras G, valid_grammar G -> lister_class extras G = false -> pipeline_preserves extras G.
 Proof. exact pipeline_preserves_outside_class. Qed.
+
+(* restore_on_err with fixes/C05-1 and fixes/C05-2 applied (the model flags the correspondence selects for such a tree):
+   in restore_on_err (to_optimized G) no alternative can fail and leave a modified stack, whatever the feature set, the
+   memchr configuration, the fuel, the state it is started in and the grammar rule it belongs to. *)
+Theorem C05_restorer_fixed : forall extras G, valid_grammar G ->
+  forall OG, to_optimized_rules extras true true false G = Some OG -> restorer_ok true true OG.
+Proof. exact restorer_fixed. Qed.
+
+(* the statement for the patched code, outside the known class *)
+Theorem C05_fixed_outside_lister_class : forall extras G, valid_grammar G -> lister_applies G = false -> lister_class extras G = false ->
+  (forall k, k <= 5 -> pass_preserves extras k G) /\ pipeline_preserves extras G /\
+  (forall OG, to_optimized_rules extras true true false G = Some OG -> restorer_ok true true OG).
+Proof.
+  intros extras G V L1 L2. destruct (C05_passes extras G V) as (P0 & P1 & P2 & P3 & P4 & P5). split; [|split].
+  - intros k Hk. destruct k as [|[|[|[|[|[|k]]]]]]; auto. exfalso. apply (Nat.nle_succ_0 k). do 5 apply le_S_n in Hk. exact Hk.
+  - now apply pipeline_preserves_outside_class.
+  - now apply restorer_fixed.
+Qed.
 
 (* non-vacuity: the statement speaks about grammars on which the rewrites fire *)
 Example rotate_fires : apply_pass false 0 [{| rname := nm "r"; rty := RNormal; rexpr := ESeq (ESeq (EStr (nm "a")) (EStr (nm "b"))) (EStr (nm "a")) |}]
@@ -104,3 +123,5 @@ Print Assumptions C05_restorer_pop_all_refuted.
 Print Assumptions C05_restorer_map_refuted.
 Print Assumptions C05_passes.
 Print Assumptions C05_pipeline_outside_lister_class.
+Print Assumptions C05_restorer_fixed.
+Print Assumptions C05_fixed_outside_lister_class.
